@@ -726,3 +726,13 @@ package cache
 //@   assert at return#5: result1 && !activeZone && !hasClosestZoneExpired && hasExactExpired && result0 == exactExpired
 //@   assert at return#6: !result1 && !activeZone && !hasClosestZoneExpired && !hasExactExpired
 //@   assert at call middleware/cache.walkFailureZones#1: arg0 == key.Question.Name
+
+//@ # ---- C12, KNOWN FINDING (recorded, not repaired - see /verif/known_findings.json): "the ... DNSSEC operations spent
+//@ # on one request tree never exceed the configured budgets": an NSEC3 hash computed for RFC 8198 synthesis on the cache
+//@ # side is admitted against a hard-coded allowance of 32 per lookup and is never debited to the request tree's ledger
+//@ # (deliberate, and pinned by the repository's TestDenialProofWorkDoesNotDebitRequestLedger, which is why it is
+//@ # recorded and not repaired). The obligation: a hash is admitted only after a debit to the request tree's ledger
+//@ func (*denialProofWork).BeginNSEC3Hash
+//@   abstract
+//@   nosafety all pre
+//@   assert at call (*middleware/cache.denialProofWork).reserveHash#1: calls("(*middleware.RecursionWorkLedger).DebitBestEffort") + calls("(*middleware.RecursionWorkLedger).Debit") >= 1
